@@ -2,3 +2,5 @@ import TE.Props.C10
 #print axioms TE.C10.eval_graft
 #print axioms TE.C10.reset_then_eq_fresh
 #print axioms TE.C10.reset_then_out_eq_fresh
+#print axioms TE.C10.reset_obj_eq_fresh
+#print axioms TE.C10.reset_restores_unregistered
